@@ -20,6 +20,8 @@ package tor
 //@   body forall k int :: 0 <= k && k < len(t.Files) ==> t.Files[k].Length >= 0 && t.Files[k].Path != nil
 //@ spec FilesChain(t *Torrent) bool
 //@   body forall k int :: 0 <= k && k < len(t.Files)-1 ==> t.Files[k+1].Offset == t.Files[k].Offset + t.Files[k].Length
+//@ spec FilesBound(t *Torrent) bool
+//@   body forall k int :: 0 <= k && k < len(t.Files) ==> t.Files[k].Offset >= 0 && t.Files[k].Offset + t.Files[k].Length <= t.Pieces.Length()
 //@ spec FilesEnds(t *Torrent) bool
 //@   body t.Files == nil || ((len(t.Files) > 0 ==> t.Files[0].Offset == 0) &&
 //@        t.Pieces.Length() == (len(t.Files) == 0 ? 0 : t.Files[len(t.Files)-1].Offset + t.Files[len(t.Files)-1].Length))
@@ -28,7 +30,7 @@ package tor
 //@   import "github.com/jech/storrent/tor/piece"
 //@   body piece.GeomP(&t.Pieces)
 //@ spec Geom(t *Torrent) bool
-//@   body GeomSizes(t) && GeomHashes(t) && FilesEach(t) && FilesChain(t) && FilesEnds(t) && PGeom(t)
+//@   body GeomSizes(t) && GeomHashes(t) && FilesEach(t) && FilesChain(t) && FilesEnds(t) && FilesBound(t) && PGeom(t)
 
 //@ func (*Torrent).MetadataComplete
 //@   requires torrent != nil && torrent.Pieces.Length() <= 0
@@ -43,6 +45,7 @@ package tor
 //@   ensures  [files]  $r0 == nil ==> FilesEach(torrent)
 //@   ensures  [chain]  $r0 == nil ==> FilesChain(torrent)
 //@   ensures  [ends]   $r0 == nil ==> FilesEnds(torrent)
+//@   ensures  [bound]  $r0 == nil ==> FilesBound(torrent)
 //@   ensures  [latch] $r0 != nil ==> torrent.infoComplete == old(torrent.infoComplete) && torrent.Pieces.Length() == old(torrent.Pieces.Length())
 //@   ensures  [done]  $r0 == nil ==> torrent.infoComplete == 1
 //@   loop 1
@@ -53,6 +56,7 @@ package tor
 //@     invariant [nonneg] forall k int :: 0 <= k && k < len(files) ==> files[k].Length >= 0 && files[k].Path != nil
 //@     invariant [chain]  forall k int :: 0 <= k && k < len(files)-1 ==> files[k+1].Offset == files[k].Offset + files[k].Length
 //@     invariant [first]  len(files) > 0 ==> files[0].Offset == 0
+//@     invariant [bound]  forall k int :: 0 <= k && k < len(files) ==> files[k].Offset >= 0 && files[k].Offset + files[k].Length <= length
 //@     invariant length == (len(files) == 0 ? 0 : files[len(files)-1].Offset + files[len(files)-1].Length)
 //@   props    C13 C12
 
@@ -119,3 +123,26 @@ package tor
 //@   maypanic
 //@   waive    nil :: non-nil-ness of the tracker and web-seed interface values read from the tables is NOT proved (the tables hold only what tracker.New/webseed.New returned non-nil; not under contract)
 //@   props    C13
+
+// fileChunks: maps the torrent range [o0, o0+l0) of a piece onto the file
+// table. Every chunk lies inside its file; chunks after the first start at
+// the beginning of their file (so, files being contiguous, the range is
+// covered once, in order); the running (o, l) conserve o+l, and the whole
+// range is consumed when it lies inside the torrent.
+//@ func fileChunks
+//@   requires t != nil && GeomSizes(t) && FilesEach(t) && FilesChain(t) && FilesEnds(t) && FilesBound(t)
+//@   requires int64(index)*int64(t.Pieces.PieceSize()) + int64(offset) + int64(length) <= t.Pieces.Length()
+//@   ensures  [single]   t.Files == nil ==> len($r0) == 1 && $r0[0].offset == int64(index)*int64(t.Pieces.PieceSize()) + int64(offset) && $r0[0].length == int64(length) && $r0[0].filelength == t.Pieces.Length()
+//@   ensures  [inside]   t.Files != nil ==> forall k int :: 0 <= k && k < len($r0) ==> 0 <= $r0[k].offset && 0 <= $r0[k].length && (length > 0 ==> 0 < $r0[k].length) && $r0[k].offset + $r0[k].length <= $r0[k].filelength
+//@   ensures  [cont]     t.Files != nil ==> forall k int :: 0 < k && k < len($r0) ==> $r0[k].offset == 0
+//@   ensures  [conserve] t.Files != nil ==> o + l == int64(index)*int64(t.Pieces.PieceSize()) + int64(offset) + int64(length)
+//@   ensures  [covered]  t.Files != nil ==> l == 0 || length == 0
+//@   loop 1
+//@     invariant [cons]   o + l == int64(index)*int64(t.Pieces.PieceSize()) + int64(offset) + int64(length) && l >= 0 && o >= 0 && (fcs == nil || fresh_(fcs))
+//@     invariant [pos]    $i < len(t.Files) ==> t.Files[$i].Offset <= o
+//@     invariant [pos2]   $i == len(t.Files) && len(t.Files) > 0 ==> t.Files[len(t.Files)-1].Offset + t.Files[len(t.Files)-1].Length <= o || l == 0
+//@     invariant [next]   len(fcs) > 0 && $i < len(t.Files) && l > 0 ==> o == t.Files[$i].Offset
+//@     invariant [inside] forall k int :: 0 <= k && k < len(fcs) ==> 0 <= fcs[k].offset && 0 <= fcs[k].length && (length > 0 ==> 0 < fcs[k].length) && fcs[k].offset + fcs[k].length <= fcs[k].filelength
+//@     invariant [cont]   forall k int :: 0 < k && k < len(fcs) ==> fcs[k].offset == 0
+//@     invariant [more]   length > 0 ==> l > 0
+//@   props    C14
